@@ -527,7 +527,11 @@ func C05(rep *ev.Reporter, tier string) {
 	litN := c05Literals(rep, &mu)
 	scN, scNT := c05ShortCircuit(rep, tier)
 	nontrivial += scNT
-	rep.Coverage["short_circuit_conditions"] = scN
+	nfN, nfNT := c05NonFinite(rep)
+	nontrivial += nfNT
+	scN += nfN
+	rep.Coverage["non_finite_real_comparisons"] = nfN
+	rep.Coverage["short_circuit_conditions"] = scN - nfN
 	rep.Coverage["programs"] = programs
 	rep.Coverage["evaluations"] = printings + condN + litN + scN
 	rep.Coverage["states"] = len(exprs)
@@ -541,7 +545,7 @@ func C05(rep *ev.Reporter, tier string) {
 		rep.Exhaustive = false
 		rep.Coverage["caps_hit"] = "time budget"
 	}
-	rep.Coverage["rule"] = fmt.Sprintf("every well-typed expression of depth <=1 over %d leaves (int/uint/float/string/bool literals and fields, fact methods incl. variadic, string/array/map built-ins, selectors) x all 15 binary operators, !atom and !(expr); every depth-2 tree of both shapes over every operator pair and every leaf triple of a %d-leaf alphabet (thorough: depth-3 chains on 5 leaves); each kept only if the reference evaluator finds it well-typed and free of division by zero / NaN / Inf; each printed minimally parenthesised ACCORDING TO THE PUBLISHED TABLE (parsed from docs/en/GRL_en.md of the working tree), fully parenthesised, doubly parenthesised with upper-case keywords, tight with mixed-case keywords, with line comments and with block comments between tokens; value observed through a typed sink field assignment (30 gated rules per knowledge base, lockstep post-state comparison) and, for booleans, as candidate flag through FetchMatchingRules; literal spellings incl. every example of docs/en/GRL_Literals_en.md; and, for boolean expressions X, knowledge bases holding X, (X), ((X)), !(X), !((X)) and !(X) || (X) together in 3 textual orders (redundant parentheses and negation must keep their own value next to each other). Short-circuit family: `L && R`, `L || R` and chains where L ranges over 26 boolean forms (literals, fields, negations, comparisons, parenthesised, method results, booleans behind a pointer and inside interface values of a map / slice) and the evaluation of R is observable (it calls a probe, or fails with an index / nil-pointer error): the probes that run, the value, and whether the expression fails at all must be those of the documented short-circuit rule. states = distinct expressions, transitions = expression printings evaluated by the engine. Non-trivial: a depth>=2 expression whose minimal printing has no parentheses (the grouping is decided by precedence/associativity alone).", len(leaves), len(chainLeaves))
+	rep.Coverage["rule"] = fmt.Sprintf("every well-typed expression of depth <=1 over %d leaves (int/uint/float/string/bool literals and fields, fact methods incl. variadic, string/array/map built-ins, selectors) x all 15 binary operators, !atom and !(expr); every depth-2 tree of both shapes over every operator pair and every leaf triple of a %d-leaf alphabet (thorough: depth-3 chains on 5 leaves); each kept only if the reference evaluator finds it well-typed and free of division by zero / NaN / Inf; each printed minimally parenthesised ACCORDING TO THE PUBLISHED TABLE (parsed from docs/en/GRL_en.md of the working tree), fully parenthesised, doubly parenthesised with upper-case keywords, tight with mixed-case keywords, with line comments and with block comments between tokens; value observed through a typed sink field assignment (30 gated rules per knowledge base, lockstep post-state comparison) and, for booleans, as candidate flag through FetchMatchingRules; literal spellings incl. every example of docs/en/GRL_Literals_en.md; and, for boolean expressions X, knowledge bases holding X, (X), ((X)), !(X), !((X)) and !(X) || (X) together in 3 textual orders (redundant parentheses and negation must keep their own value next to each other). Short-circuit family: `L && R`, `L || R` and chains where L ranges over 26 boolean forms (literals, fields, negations, comparisons, parenthesised, method results, booleans behind a pointer and inside interface values of a map / slice) and the evaluation of R is observable (it calls a probe, or fails with an index / nil-pointer error): the probes that run, the value, and whether the expression fails at all must be those of the documented short-circuit rule. Non-finite reals: every comparison operator (plain and under !(..)) on every ordered pair of 10 operands denoting NaN, +Inf, -Inf and finite reals (fields of float64 / float32, sums and products), expected value computed by Go's own operators. states = distinct expressions, transitions = expression printings evaluated by the engine. Non-trivial: a depth>=2 expression whose minimal printing has no parentheses (the grouping is decided by precedence/associativity alone).", len(leaves), len(chainLeaves))
 	rep.Assumptions = append(rep.Assumptions, "string + float / time rendering and negation of non-booleans are undocumented and not judged", "operand values are fixed (one fact state); the alphabets are chosen so that both groupings of every operator pair differ in value or typing for at least one leaf triple")
 }
 
